@@ -5725,7 +5725,9 @@ class NameCheckVisitor(node_visitor.ReplacingNodeVisitor):
                 )
 
                 if self.match_subject.value is NO_RETURN_VALUE:
-                    self._set_name_in_scope(LEAVES_SCOPE, node, NO_RETURN_VALUE)
+                    with self.scopes.subscope() as else_scope:
+                        self._set_name_in_scope(LEAVES_SCOPE, node, NO_RETURN_VALUE)
+                        subscopes.append(else_scope)
                 else:
                     with self.scopes.subscope() as else_scope:
                         for constraint in constraints_to_apply:
